@@ -28,49 +28,64 @@ Theorem C19_guards_as_proved : G = G0.
 Proof. apply guards_ok_eq. exact C19_reader_guards. Qed.
 Print Assumptions C19_guards_as_proved.
 
+(* ---- which rebuild the source of this run has: fetch_or_create_root scans the child containers first (the repaired code,
+   commit "Root rebuild keeps hierarchy").  [load] takes the variant as a parameter; the theorems about the current source
+   are stated for [true], the refutation of the old behaviour for the explicit [false] variant. *)
+Theorem C19_source_rebuild_scans_children : nested_scan = true.
+Proof. vm_compute. reflexivity. Qed.
+Print Assumptions C19_source_rebuild_scans_children.
+
 (* ---- the intact file reads back as its content *)
 Theorem C19_intact_reads_back : forall s fuel, wf s -> depth (fs_root s) <= fuel ->
-  exists t, load fuel G (layout s) = Ok t /\ t_proj t = fs_proj s /\ t_root t = U (et_uid (fs_root s))
+  exists t, load fuel G nested_scan (layout s) = Ok t /\ t_proj t = fs_proj s /\ t_root t = U (et_uid (fs_root s))
             /\ forall v, find_rec (U v) (t_ents t) = find_rec (U v) (t_ents (abs s)).
-Proof. intros s fuel Hwf Hf. rewrite C19_guards_as_proved. exact (intact_reads_back s Hwf fuel Hf). Qed.
+Proof. intros s fuel Hwf Hf. rewrite C19_guards_as_proved. exact (intact_reads_back s nested_scan Hwf fuel Hf). Qed.
 Print Assumptions C19_intact_reads_back.
 
-(* ---- the full statements of the property *)
-Definition C19_optional_full : Prop :=
+(* ---- the full statements of the property, for a given variant of the rebuild *)
+Definition C19_optional_full (nested : bool) : Prop :=
   forall s x fuel, wf s -> item_in (layout s) x -> optional s x = true -> depth (fs_root s) <= fuel ->
-  exists t, load fuel G (delete_item (layout s) x) = Ok t
+  exists t, load fuel G nested (delete_item (layout s) x) = Ok t
             /\ agree_outside (negb (is_proj_attr x)) (described s x) t (abs s).
 
-Definition C19_mandatory_full : Prop :=
+Definition C19_mandatory_full (nested : bool) : Prop :=
   forall s x fuel, wf s -> item_in (layout s) x -> optional s x = false -> depth (fs_root s) <= fuel ->
-  (exists e, load fuel G (delete_item (layout s) x) = Err e)
-  \/ (exists t, load fuel G (delete_item (layout s) x) = Ok t /\ tree_eqb t (prune (described s x) (abs s)) = true).
+  (exists e, load fuel G nested (delete_item (layout s) x) = Err e)
+  \/ (exists t, load fuel G nested (delete_item (layout s) x) = Ok t /\ tree_eqb t (prune (described s x) (abs s)) = true).
 
-(* PARTIAL (optional items): every optional item except the Root link.  Missing for the full statement: the Root link
-   (refuted below). *)
-Theorem C19_optional_deletion_tolerated_partial :
-  forall s x fuel, wf s -> item_in (layout s) x -> optional s x = true -> is_root_link x = false -> depth (fs_root s) <= fuel ->
-  exists t, load fuel G (delete_item (layout s) x) = Ok t
-            /\ agree_outside (negb (is_proj_attr x)) (described s x) t (abs s).
+(* FULL (optional items, the source of this run): every optional item, the Root link included, can be deleted: the file
+   opens and every entity the item does not describe is returned unchanged.  For the Root link the described entity is
+   the root group: the reader builds a new root and returns the old root group as its only child (kind and parent of that
+   one entity change); every other entity keeps its content and its parent. *)
+Theorem C19_optional_deletion_tolerated : C19_optional_full true.
 Proof.
-  intros s x fuel Hwf _ Hopt Hnr Hf. rewrite C19_guards_as_proved. unfold described. rewrite Hnr.
-  exact (optional_outcome s Hwf x Hnr Hopt fuel Hf).
+  intros s x fuel Hwf _ Hopt Hf. rewrite C19_guards_as_proved. unfold described.
+  destruct (is_root_link x) eqn:Hr.
+  - assert (Ex : x = ILink [] KRoot).
+    { destruct x as [a k|a k]; [discriminate|]. destruct a; [|discriminate]. destruct k; try discriminate. reflexivity. }
+    subst x. exact (root_link_outcome s Hwf fuel Hf).
+  - exact (optional_outcome s true Hwf x Hr Hopt fuel Hf).
 Qed.
-Print Assumptions C19_optional_deletion_tolerated_partial.
+Print Assumptions C19_optional_deletion_tolerated.
 
-(* PARTIAL (mandatory items): the reader raises, or returns every entity outside the described ones (and their
-   descendants) unchanged.  Missing for the full statement: that the described entities are left out — the reader often
-   keeps them with class defaults or a fresh identifier (refuted below). *)
+(* the same, phrased with the constant extracted from the source *)
+Theorem C19_optional_deletion_tolerated_current : C19_optional_full nested_scan.
+Proof. rewrite C19_source_rebuild_scans_children. exact C19_optional_deletion_tolerated. Qed.
+Print Assumptions C19_optional_deletion_tolerated_current.
+
+(* PARTIAL (mandatory items, either rebuild): the reader raises, or returns every entity outside the described ones (and
+   their descendants) unchanged.  Missing for the full statement: that the described entities are left out — the reader
+   often keeps them with class defaults or a fresh identifier (refuted below). *)
 Theorem C19_mandatory_deletion_local_partial :
-  forall s x fuel, wf s -> item_in (layout s) x -> optional s x = false -> depth (fs_root s) <= fuel ->
-  (exists e, load fuel G (delete_item (layout s) x) = Err e /\ e <> OutOfFuel)
-  \/ (exists t, load fuel G (delete_item (layout s) x) = Ok t
+  forall nested s x fuel, wf s -> item_in (layout s) x -> optional s x = false -> depth (fs_root s) <= fuel ->
+  (exists e, load fuel G nested (delete_item (layout s) x) = Err e /\ e <> OutOfFuel)
+  \/ (exists t, load fuel G nested (delete_item (layout s) x) = Ok t
                 /\ agree_outside (negb (is_proj_attr x)) (described s x) t (abs s)).
 Proof.
-  intros s x fuel Hwf _ Hopt Hf. rewrite C19_guards_as_proved.
+  intros nested s x fuel Hwf _ Hopt Hf. rewrite C19_guards_as_proved.
   assert (Hnr : is_root_link x = false).
   { destruct x as [a k|a k]; [reflexivity|]. destruct a; [|reflexivity]. destruct k; try reflexivity. discriminate Hopt. }
-  unfold described. rewrite Hnr. exact (deletion_outcome s Hwf x Hnr fuel Hf).
+  unfold described. rewrite Hnr. exact (deletion_outcome s nested Hwf x Hnr fuel Hf).
 Qed.
 Print Assumptions C19_mandatory_deletion_local_partial.
 
@@ -84,6 +99,8 @@ Definition s_nested : fspec :=
      fs_types := fun k => match k with KGroup => [(0%N, gtype)] | _ => [] end;
      fs_root := grp 5 [grp 4 [grp 0 []]] |}.
 
+(* the hypotheses of every theorem above are met: a well-formed tree, an optional attribute, a mandatory link, and the
+   Root link itself (existing, optional); and the Root-link instance evaluates as the theorem says *)
 Example C19_nonvacuous :
   wf s_nested
   /\ (item_in (layout s_nested) (IAttr [KGroups; KU 4] (KN "Allow move")) /\ optional s_nested (IAttr [KGroups; KU 4] (KN "Allow move")) = true)
@@ -92,31 +109,39 @@ Example C19_nonvacuous :
   /\ depth (fs_root s_nested) <= 5.
 Proof. repeat split; try (vm_compute; reflexivity). cbv. repeat constructor. Qed.
 
-(* REFUTED (for the source as pinned: no scan of the child containers when the root is rebuilt): without the Root link the
-   reader rebuilds the tree from the flat containers in identifier order; group 0 is met before its parent 4 and is hung on
-   the new root: altered content for an entity the Root link does not describe.  (witness replayed on the implementation:
-   corpus/C19/0001-root-link-nested.json, known finding; with fixes/C19-root-rebuild-keeps-hierarchy.patch applied
-   [nested_scan] is true, the hypothesis is false and the witness reads back with its hierarchy) *)
-Theorem C19_optional_refuted : nested_scan = false -> ~ C19_optional_full.
-Proof.
-  intros Hn H. vm_compute in Hn.
-  first [ discriminate Hn
-        | specialize (H s_nested (ILink [] KRoot) 5);
-          destruct H as [t [E [_ Hag]]]; try (vm_compute; reflexivity);
-          [ cbv; repeat constructor
-          | vm_compute in E; inversion E; subst t; clear E;
-            specialize (Hag 0%N); vm_compute in Hag;
-            assert (Hn0 : ~ (5%N = 0%N \/ False)) by (intros [X|[]]; discriminate); specialize (Hag Hn0); discriminate ] ].
-Qed.
-Print Assumptions C19_optional_refuted.
+Example C19_root_link_instance :
+  match load 5 G true (delete_item (layout s_nested) (ILink [] KRoot)) with
+  | Ok t => agree_outsideb s_nested true (described s_nested (ILink [] KRoot)) t (abs s_nested) = true
+            /\ List.length (t_ents t) = 4 /\ t_root t = Fresh [KRoot]
+            /\ option_map r_parent (find_rec (U 0) (t_ents t)) = Some (Some (U 4))
+            /\ option_map r_parent (find_rec (U 5) (t_ents t)) = Some (Some (Fresh [KRoot]))
+  | Err _ => False
+  end.
+Proof. vm_compute. repeat split; reflexivity. Qed.
 
-(* REFUTED: a missing Name (mandatory) neither raises nor leaves the group out: it is returned with the class default. *)
-Theorem C19_mandatory_refuted : ~ C19_mandatory_full.
+(* REFUTED for the old rebuild (the explicit [false] variant of the model: every flat entry is attached to the new root in
+   identifier order): group 0 is met before its parent 4 and is hung on the new root — altered content for an entity the
+   Root link does not describe.  This was the behaviour of the pinned source before
+   fixes/C19-root-rebuild-keeps-hierarchy.patch (witness corpus/C19/0001-root-link-nested.json). *)
+Theorem C19_optional_refuted_old_rebuild : ~ C19_optional_full false.
 Proof.
-  intros H. specialize (H s_nested (IAttr [KGroups; KU 4] KName) 5).
+  intros H. specialize (H s_nested (ILink [] KRoot) 5).
+  destruct H as [t [E [_ Hag]]]; try (vm_compute; reflexivity).
+  - cbv. repeat constructor.
+  - vm_compute in E. inversion E; subst t. clear E.
+    specialize (Hag 0%N). vm_compute in Hag.
+    assert (Hn : ~ (5%N = 0%N \/ False)) by (intros [X|[]]; discriminate). specialize (Hag Hn). discriminate.
+Qed.
+Print Assumptions C19_optional_refuted_old_rebuild.
+
+(* REFUTED (either rebuild): a missing Name (mandatory) neither raises nor leaves the group out: it is returned with the
+   class default. *)
+Theorem C19_mandatory_refuted : forall nested, ~ C19_mandatory_full nested.
+Proof.
+  intros nested H. specialize (H s_nested (IAttr [KGroups; KU 4] KName) 5).
   destruct H as [[e E]|[t [E Heq]]]; try (vm_compute; reflexivity).
   - cbv. repeat constructor.
-  - vm_compute in E. discriminate.
-  - vm_compute in E. inversion E; subst t. vm_compute in Heq. discriminate.
+  - destruct nested; vm_compute in E; discriminate.
+  - destruct nested; vm_compute in E; inversion E; subst t; vm_compute in Heq; discriminate.
 Qed.
 Print Assumptions C19_mandatory_refuted.
